@@ -654,6 +654,61 @@ def o_c11_zero(tr):
                 yield {"oracle": "deposit-zero-time", "signature": "create", "detail": "stream %s/%s: deposit %d rate %d funded at %d: zero time %d, want %d" % (r, sn, dep, rate, b["time"], st["zero"], want)}
 
 
+def o_c11_clock(tr):
+    """every release restarts the clock: after a block in which a claim or a flow-rate change of a funded stream succeeded,
+    the stream (if it is still there) is stored with that block's time as its last-release time (c11_claim_restarts_the_clock,
+    c11_rate_change_restarts_the_clock)"""
+    for prev, b, d in states(tr):
+        if prev is None:
+            continue
+        for k, st in d.streams.items():
+            r, sn = k
+            def did(kinds):
+                for t in b["txs"]:
+                    if t["result"] != "ok":
+                        continue
+                    toks = [addr_id(x) for x in t["line"].split()]
+                    for i, w in enumerate(toks[:-2]):
+                        if w in kinds and toks[i + 1] == r and toks[i + 2] == sn:
+                            return True
+                return False
+            if not did(("str.claim", "str.rate")):
+                continue
+            before = prev.streams.get(k)
+            refunded = did(("str.create", "str.topup"))
+            if before is not None and before["deposit"][0] <= 0 and not refunded:
+                continue   # an unfunded stream: a rate change leaves its clock alone
+            if st["last"] != b["time"]:
+                yield {"oracle": "release-restarts-clock", "signature": "last!=block-time", "detail": "stream %s/%s released or re-rated in the block at %d, stored last release %d" % (r, sn, b["time"], st["last"])}
+
+
+def o_c11_topup(tr):
+    """a top-up of a running stream (the only transaction touching it in its block, a single message) extends the advertised
+    zero time by floor(top-up / flow rate) seconds, adds exactly the top-up to the deposit and leaves the last-release time
+    alone (c11_topup_extends_zero_time)"""
+    for prev, b, d in states(tr):
+        if prev is None:
+            continue
+        for k, st in d.streams.items():
+            before = prev.streams.get(k)
+            if before is None or before["zero"] <= b["time"] or before["rate"] <= 0:
+                continue
+            r, sn = k
+            touching = [t for t in b["txs"] if r in names_in(t) and sn in names_in(t) and any(x.startswith("str.") for x in t["kinds"])]
+            if len(touching) != 1 or touching[0]["kinds"] != ["str.topup"] or touching[0]["result"] != "ok":
+                continue
+            m = split_msgs(touching[0]["body"]) if "body" in touching[0] else None
+            toks = touching[0]["line"].split()
+            i = toks.index("str.topup")
+            if len(toks) < i + 5 or addr_id(toks[i + 1]) != r or addr_id(toks[i + 2]) != sn or not re.match(r"^\d+$", toks[i + 3]):
+                continue
+            amt = int(toks[i + 3])
+            want_zero = before["zero"] + (amt // before["rate"]) * 10**9
+            if st["zero"] != want_zero or st["last"] != before["last"] or st["deposit"][0] != before["deposit"][0] + amt:
+                yield {"oracle": "top-up-extends-zero-time", "signature": "running", "detail": "stream %s/%s: deposit %d rate %d zero %d last %d, top-up %d at %d: now deposit %d zero %d (want %d) last %d" % (
+                    r, sn, before["deposit"][0], before["rate"], before["zero"], before["last"], amt, b["time"], st["deposit"][0], st["zero"], want_zero, st["last"])}
+
+
 def o_c12(tr):
     for prev, b, d in states(tr):
         for tx in b["txs"]:
@@ -1159,8 +1214,8 @@ def o_record_query(tr):
 
 ORACLES = {
     "C02": [o_c02, o_invariants, o_c03], "C03": [o_c03], "C04": [o_c04, o_invariants], "C05": [o_c05, o_c05_granter, o_c05_amount], "C07": [o_c07, o_c08, o_record_query], "C08": [o_c08, o_record_query],
-    "C09": [o_c09, o_owner_writes, o_import_same], "C10": [o_c10, o_c10_fee, o_invariants], "C11": [o_c11, o_c11_zero], "C12": [o_c12, o_c12_live], "C14": [o_c14], "C16": [o_c16, o_c03, o_c06_plain, o_c08], "C18": [o_c18, o_c09, o_c15],
-    "C13": [o_c13, o_owner_writes, o_import_same], "C17": [o_c17, o_page_progress], "C20": [o_c20, o_page_progress], "C15": [o_c15, o_invariants], "C06": [o_c06], "C01": [],
+    "C09": [o_c09, o_owner_writes, o_import_same], "C10": [o_c10, o_c10_fee, o_invariants], "C11": [o_c11, o_c11_zero, o_c11_clock, o_c11_topup], "C12": [o_c12, o_c12_live, o_c11_topup], "C14": [o_c14], "C16": [o_c16, o_c03, o_c06_plain, o_c08], "C18": [o_c18, o_c09, o_c15, o_c20, o_page_progress],
+    "C13": [o_c13, o_owner_writes, o_import_same], "C17": [o_c17, o_page_progress, o_c04], "C20": [o_c20, o_page_progress], "C15": [o_c15, o_invariants], "C06": [o_c06], "C01": [],
 }
 
 
